@@ -234,7 +234,9 @@ fn gen_valid(r: &mut Rng, b: &hb_buffer_t) -> Op {
                     let (s, e) = rand_range(r, 0, len);
                     return Op::Sort(s, e);
                 }
-                11 => return Op::DeleteInplace,
+                // only with the cursor at 0, where every caller has it (hide_default_ignorables, the morx deleted-glyph pass):
+                // the function leaves idx alone, so elsewhere idx can end up beyond len - a state no caller produces
+                11 if b.idx == 0 => return Op::DeleteInplace,
                 12 => return Op::MoveTo(r.below(len as u64 + 1) as usize),
                 13 if restn > 0 => return Op::NextGlyph,
                 14 | 15 => return Op::ClearOutput,
